@@ -49,7 +49,7 @@ class ProtocolHandler:
 
         # Get method - only requests/notifications have method
         method = getattr(message, "method", None)
-        if not method:
+        if method is None:
             # Get ID if available (not on notifications)
             msg_id = getattr(message, "id", None)
             if msg_id is None:
